@@ -1087,4 +1087,255 @@ theorem run_preserves {σ : Type} (sem : StateSem σ) (net : Net) (st0 : σ) :
   | B :: rest, c, h => run_preserves sem net st0 rest _ (offer_preserves sem net st0 c B h)
 
 
+
+/-! ### the field prime, byte strings, version strings -/
+
+def starkPrime : Nat := 2 ^ 251 + 17 * 2 ^ 192 + 1
+
+theorem modP_aux (a a' : Nat) (ha : a < 2 ^ 256) (ha' : a' < 2 ^ 256) (h63 : a % 2 ^ 63 = 0) (h63' : a' % 2 ^ 63 = 0)
+    (h : a % starkPrime = a' % starkPrime) : a = a' := by
+  unfold starkPrime at h
+  have e := Nat.div_add_mod a (2 ^ 251 + 17 * 2 ^ 192 + 1)
+  have e' := Nat.div_add_mod a' (2 ^ 251 + 17 * 2 ^ 192 + 1)
+  have hr := Nat.mod_lt a (show 2 ^ 251 + 17 * 2 ^ 192 + 1 > 0 by decide)
+  generalize a / (2 ^ 251 + 17 * 2 ^ 192 + 1) = q at e
+  generalize a' / (2 ^ 251 + 17 * 2 ^ 192 + 1) = q' at e'
+  generalize a % (2 ^ 251 + 17 * 2 ^ 192 + 1) = r at *
+  generalize a' % (2 ^ 251 + 17 * 2 ^ 192 + 1) = r' at *
+  subst h
+  omega
+
+theorem concatCounts_bounds (t e s : UInt64) (d : Nat) :
+    concatCounts t e s d < 2 ^ 256 ∧ concatCounts t e s d % 2 ^ 63 = 0 := by
+  unfold concatCounts
+  have ht := t.toNat_lt; have he := e.toNat_lt; have hs := s.toNat_lt
+  split <;> omega
+
+theorem concatCounts_modP_inj (t e s t' e' s' : UInt64) (d d' : Nat)
+    (h : concatCounts t e s d % starkPrime = concatCounts t' e' s' d' % starkPrime) :
+    t = t' ∧ e = e' ∧ s = s' ∧ (d = 1 ↔ d' = 1) := by
+  have b := concatCounts_bounds t e s d
+  have b' := concatCounts_bounds t' e' s' d'
+  exact concatCounts_inj _ _ _ _ _ _ _ _ (modP_aux _ _ b.1 b'.1 b.2 b'.2 h)
+
+/-! ### byte strings (the protocol version is committed as `felt.SetBytes(string)`) -/
+
+theorem bytesToNat_append (xs : Bytes) (x : UInt8) : bytesToNat (xs ++ [x]) = bytesToNat xs * 256 + x.toNat := by
+  simp [bytesToNat, List.foldl_append]
+
+/-- byte strings of the same length with the same big-endian value are equal -/
+theorem bytesToNat_inj_of_length : ∀ (n : Nat) (a b : Bytes), a.length = n → b.length = n →
+    bytesToNat a = bytesToNat b → a = b := by
+  intro n
+  induction n with
+  | zero =>
+    intro a b ha hb _
+    rw [List.length_eq_zero_iff.mp ha, List.length_eq_zero_iff.mp hb]
+  | succ n ih =>
+    intro a b ha hb h
+    obtain ⟨as, x, rfl⟩ : ∃ as x, a = as ++ [x] := by
+      refine ⟨a.dropLast, a.getLast (by intro e; simp [e] at ha), ?_⟩
+      exact (List.dropLast_concat_getLast _).symm
+    obtain ⟨bs, y, rfl⟩ : ∃ bs y, b = bs ++ [y] := by
+      refine ⟨b.dropLast, b.getLast (by intro e; simp [e] at hb), ?_⟩
+      exact (List.dropLast_concat_getLast _).symm
+    rw [bytesToNat_append, bytesToNat_append] at h
+    have hx := x.toNat_lt; have hy := y.toNat_lt
+    have hxy : x.toNat = y.toNat ∧ bytesToNat as = bytesToNat bs := by omega
+    have := ih as bs (by simpa using ha) (by simpa using hb) hxy.2
+    rw [this, UInt8.toNat_inj.mp hxy.1]
+
+theorem bytesToNat_range_rev : ∀ (r : Bytes), bytesToNat r.reverse < 256 ^ r.length
+  | [] => by simp [bytesToNat]
+  | x :: rs => by
+    rw [List.reverse_cons, bytesToNat_append]
+    have ih := bytesToNat_range_rev rs
+    have hx := x.toNat_lt
+    simp only [List.length_cons, Nat.pow_succ]
+    omega
+
+/-- the value of a byte string of length `n` is below `256^n` -/
+theorem bytesToNat_range (a : Bytes) : bytesToNat a < 256 ^ a.length := by
+  have := bytesToNat_range_rev a.reverse
+  simpa using this
+
+theorem bytesToNat_lower_rev (x : UInt8) (hx : x ≠ 0) : ∀ (r : Bytes), 256 ^ r.length ≤ bytesToNat (x :: r.reverse)
+  | [] => by
+    simp [bytesToNat]
+    have : x.toNat ≠ 0 := fun h => hx (UInt8.toNat_inj.mp (by simpa using h))
+    omega
+  | y :: rs => by
+    rw [List.reverse_cons, ← List.cons_append, bytesToNat_append]
+    have ih := bytesToNat_lower_rev x hx rs
+    simp only [List.length_cons, Nat.pow_succ]
+    omega
+
+/-- … and at least `256^(n-1)` when the first byte is not NUL -/
+theorem bytesToNat_lower (x : UInt8) (as : Bytes) (hx : x ≠ 0) : 256 ^ as.length ≤ bytesToNat (x :: as) := by
+  have := bytesToNat_lower_rev x hx as.reverse
+  simpa using this
+
+/-- strings that do not start with a NUL byte (every version string `ParseBlockVersion` accepts
+starts with a digit) are determined by their value -/
+theorem bytesToNat_inj_of_nonzero_head (x y : UInt8) (as bs : Bytes) (hx : x ≠ 0) (hy : y ≠ 0)
+    (h : bytesToNat (x :: as) = bytesToNat (y :: bs)) : x :: as = y :: bs := by
+  have hlen : as.length = bs.length := by
+    have l1 := bytesToNat_lower x as hx; have u1 := bytesToNat_range (x :: as)
+    have l2 := bytesToNat_lower y bs hy; have u2 := bytesToNat_range (y :: bs)
+    simp only [List.length_cons] at u1 u2
+    rcases Nat.lt_trichotomy as.length bs.length with hlt | heq | hgt
+    · have : 256 ^ (as.length + 1) ≤ 256 ^ bs.length := Nat.pow_le_pow_right (by decide) hlt
+      omega
+    · exact heq
+    · have : 256 ^ (bs.length + 1) ≤ 256 ^ as.length := Nat.pow_le_pow_right (by decide) hgt
+      omega
+  exact bytesToNat_inj_of_length (as.length + 1) _ _ (by simp) (by simp [hlen]) h
+
+theorem parseFold_none (bs : Bytes) : bs.foldl digitStep none = none := by
+  induction bs with
+  | nil => rfl
+  | cons b bs ih => simpa [digitStep] using ih
+
+theorem parseUint_head (x : UInt8) (p : Bytes) (n : Nat) (h : parseUint (x :: p) = some n) : 48 ≤ x ∧ x ≤ 57 := by
+  unfold parseUint at h
+  simp only [List.isEmpty_cons, Bool.false_eq_true, if_false, List.foldl_cons] at h
+  by_cases hd : 48 ≤ x ∧ x ≤ 57
+  · exact hd
+  · have : digitStep (some 0) x = none := by simp [digitStep, hd]
+    rw [this, parseFold_none] at h
+    simp at h
+
+theorem splitDots_ne_nil : ∀ (bs : Bytes), splitDots bs ≠ []
+  | [] => by simp [splitDots]
+  | b :: rest => by
+    unfold splitDots
+    split
+    · simp
+    · split <;> simp
+
+theorem parseVersion_head (x : UInt8) (as : Bytes) (v : Ver) (h : parseVersion (x :: as) = some v) : x ≠ 0 := by
+  unfold parseVersion at h
+  simp only [List.isEmpty_cons, Bool.false_eq_true, if_false] at h
+  -- the first part
+  have hs : ∃ p ps, splitDots (x :: as) = (if x = 46 then [] else x :: p) :: ps := by
+    unfold splitDots
+    cases hr : splitDots as with
+    | nil => exact absurd hr (splitDots_ne_nil as)
+    | cons p ps =>
+      by_cases h46 : x = 46
+      · exact ⟨p, p :: ps, by simp [h46]⟩
+      · exact ⟨p, ps, by simp [h46]⟩
+  obtain ⟨p, ps, hs⟩ := hs
+  rw [hs] at h
+  simp only [List.getElem?_cons_zero] at h
+  by_cases h46 : x = 46
+  · simp [h46, parseUint] at h
+  · simp only [h46, if_false] at h
+    cases hp : parseUint (x :: p) with
+    | none => simp [hp] at h
+    | some n =>
+      have := parseUint_head x p n hp
+      intro hx
+      rw [hx] at this
+      exact absurd this.1 (by decide)
+
+
+theorem chainOK_mem_verified {σ : Type} (sem : StateSem σ) (net : Net) (st0 : σ) (hd : Option Head) (st : σ)
+    (stored : List Bundle) (h : ChainOK sem net st0 hd st stored) : ∀ B ∈ stored, Verified net B := by
+  induction h with
+  | empty => intro B hB; simp at hB
+  | cons B rest head st st' _ hv _ _ _ _ _ ih =>
+    intro X hX
+    rcases List.mem_cons.mp hX with rfl | hX
+    · exact hv
+    · exact ih X hX
+
+
+/-! ### the Pedersen formats (before 0.13.2) -/
+
+
+/-- what the Pedersen transaction commitment (pre-0.13.2) sees of a transaction -/
+def sigViewPedersen (allSigs : Bool) (t : Tx) : Term × List Term :=
+  (t.hash.getD (.felt 0), if allSigs then t.signature else (match t with | .invoke i => i.signature | _ => []))
+
+theorem txLeafPedersen_inj (f f' : Bool) (a b : Tx) (h : txLeafPedersen f a = txLeafPedersen f' b) :
+    sigViewPedersen f a = sigViewPedersen f' b := by
+  unfold txLeafPedersen at h
+  simp only [Term.ped.injEq, Term.pedN.injEq] at h
+  simp only [sigViewPedersen, Prod.mk.injEq]
+  exact h
+
+theorem map2_inj {α β γ : Type} (f f' : α → β) (g g' : α → γ) (hf : ∀ a b, f a = f' b → g a = g' b) :
+    ∀ (xs ys : List α), xs.map f = ys.map f' → xs.map g = ys.map g'
+  | [], [], _ => rfl
+  | [], _ :: _, h => by simp at h
+  | _ :: _, [], h => by simp at h
+  | x :: xs, y :: ys, h => by
+    simp only [List.map_cons, List.cons.injEq] at h ⊢
+    exact ⟨hf _ _ h.1, map2_inj f f' g g' hf xs ys h.2⟩
+
+theorem eventLeafPedersen_inj (e e' : Event) (h : eventLeafPedersen e = eventLeafPedersen e') : e = e' := by
+  unfold eventLeafPedersen at h
+  simp only [Term.pedN.injEq, List.cons.injEq, and_true] at h
+  cases e; cases e'; simp_all
+
+def eventsOnly (rs : List Receipt) : List Event := rs.flatMap (·.events)
+
+theorem eventLeavesPedersen_eq (rs : List Receipt) : eventLeavesPedersen rs = (eventsOnly rs).map eventLeafPedersen := by
+  induction rs with
+  | nil => rfl
+  | cons r rs ih =>
+    simp only [eventLeavesPedersen, eventsOnly, List.flatMap_cons, List.map_append] at ih ⊢
+    rw [ih]
+
+/-- header fields the post-0.7 (pre-0.13.2) Pedersen block hash commits -/
+structure HeaderViewPost07 where
+  number : UInt64
+  stateRoot : Term
+  sequencer : Term
+  timestamp : UInt64
+  txCount : UInt64
+  eventCount : UInt64
+  parentHash : Term
+deriving DecidableEq, Repr
+
+def allSigsOf (b : Block) : Bool := match parseVersion b.header.version with | some v => v.ge v0_11_1 | none => false
+
+theorem post07_inj (b b' : Block) (ov ov' : Option Term) (x : Term)
+    (h : post07 b ov = some x) (h' : post07 b' ov' = some x) :
+    ∃ seq seq', (match ov with | some s => some s | none => b.header.sequencer) = some seq ∧
+      (match ov' with | some s => some s | none => b'.header.sequencer) = some seq' ∧
+      (⟨b.header.number, b.header.stateRoot, seq, b.header.timestamp, b.header.txCount, b.header.eventCount, b.header.parentHash⟩ : HeaderViewPost07)
+        = ⟨b'.header.number, b'.header.stateRoot, seq', b'.header.timestamp, b'.header.txCount, b'.header.eventCount, b'.header.parentHash⟩ ∧
+      b.txs.map (sigViewPedersen (allSigsOf b)) = b'.txs.map (sigViewPedersen (allSigsOf b')) ∧
+      eventsOnly b.receipts = eventsOnly b'.receipts := by
+  unfold post07 at h h'
+  dsimp only at h h'
+  split at h
+  case h_2 => simp at h
+  rename_i txc seq htc hs
+  split at h'
+  case h_2 => simp at h'
+  rename_i txc' seq' htc' hs'
+  unfold pedTxComm at htc htc'
+  cases hp : parseVersion b.header.version with
+  | none => simp [hp] at htc
+  | some v =>
+  cases hp' : parseVersion b'.header.version with
+  | none => simp [hp'] at htc'
+  | some v' =>
+  simp only [hp, hp', Option.some.injEq] at htc htc'
+  subst htc htc'
+  simp only [Option.some.injEq] at h h'
+  subst h
+  simp only [Term.pedN.injEq, Term.comm.injEq, List.cons.injEq, true_and, and_true] at h'
+  obtain ⟨hn, hr, hq, ht, htcnt, htx, hec, hev, hpar⟩ := h'
+  refine ⟨seq, seq', hs, hs', ?_, ?_, ?_⟩
+  · simp [u64_inj hn, hr, hq, u64_inj ht, u64_inj htcnt, u64_inj hec, hpar]
+  · simp only [allSigsOf, hp, hp']
+    exact (map2_inj _ _ _ _ (fun a c hh => txLeafPedersen_inj _ _ a c hh) _ _ htx).symm
+  · rw [eventLeavesPedersen_eq, eventLeavesPedersen_eq] at hev
+    have := map_inj_of_inj eventLeafPedersen id (fun a c hh => eventLeafPedersen_inj a c hh) _ _ hev
+    simpa using this.symm
+
 end Juno.C02
